@@ -120,7 +120,7 @@ class RefRT(object):
 
     def make_exc(self, fr, site, cls):
         tag = ("raise", site, fr.path)
-        return UserErr(tag) if cls == "exc" else UserBaseErr(tag)
+        return lang.make_user_exc(cls, tag)
 
     def read(self, fr, name):
         f = fr
@@ -223,8 +223,8 @@ class RefRT(object):
             cls = ObservedBaseErr if d and d[0] == "UserBaseErr" else ObservedErr
             return ("exc", cls(d))
         mode = self.prog.get("faults", {}).get("%s:%s" % (kind, key))
-        if mode == "error":
-            return ("exc", UserErr(("item", kind, key, inst)))
+        if mode in ("error", "falsyerror"):
+            return ("exc", lang.make_user_exc("falsy" if mode == "falsyerror" else "exc", ("item", kind, key, inst)))
         if mode == "baseerror":
             return ("exc", UserBaseErr(("item", kind, key, inst)))
         if mode == "unset":
@@ -245,10 +245,7 @@ class RefRT(object):
             leaf.outcome = ("val", UserErr(("value", l[1])))
         elif kind == "err":
             tag = ("err", l[1], leaf.inst)
-            leaf.outcome = (
-                "exc",
-                UserErr(tag) if l[2] == "exc" else UserBaseErr(tag),
-            )
+            leaf.outcome = ("exc", lang.make_user_exc(l[2], tag))
         elif kind == "lazy":
             if l[2] == "ok":
                 leaf.outcome = ("val", ("lazy", l[1], leaf.inst))
